@@ -330,3 +330,58 @@ Check SrcTie2Events.EV_wwc_write_shape.
 Theorem C13_tie_EV_wwc_write_shape : ltac:(let t := type of SrcTie2Events.EV_wwc_write_shape in exact t).
 Proof. exact SrcTie2Events.EV_wwc_write_shape. Qed.
 Print Assumptions C13_tie_EV_wwc_write_shape.
+(* ---------- work package wrows: the Tie B rows of job c13-sinkrows run Sink.write_all / Sink.pos_write
+   over Sink.sink_write — the logging wrapper that records what the sink was offered is invisible
+   (theories/RunWRows.v, RunWRowsProofs.v) ---------- *)
+From MLA Require RunWRows RunWRowsProofs.
+
+Theorem C13_rows_write_all :
+  forall fuel (s : wr_st RunWRows.SinkStack) b,
+  write_all (PosW SinkW) fuel (RunWRowsProofs.erase_log s) b =
+  (RunWRowsProofs.erase_log (fst (write_all RunWRows.SinkStack fuel s b)), snd (write_all RunWRows.SinkStack fuel s b)).
+Proof. exact RunWRowsProofs.sinkstack_write_all. Qed.
+
+Theorem C13_rows_write :
+  forall (s : wr_st RunWRows.SinkStack) b,
+  pos_write SinkW (RunWRowsProofs.erase_log s) b =
+  (RunWRowsProofs.erase_log (fst (wr_write RunWRows.SinkStack s b)), snd (wr_write RunWRows.SinkStack s b)).
+Proof. exact RunWRowsProofs.sinkstack_write. Qed.
+
+Print Assumptions C13_rows_write_all.
+Print Assumptions C13_rows_write.
+
+(* the encryption layer writer (EncLayer.ew_write / ew_finalize) handing its bytes down with
+   inner.write_all through a destination that only throttles and interrupts — the composition job
+   c13-encsink evaluates (RunWRows.es_write / es_finalize = ew_* pushed through Sink.push_outs):
+   the call succeeds with the model's accepted count and the destination holds exactly ew_out *)
+Theorem C13_enc_writer_over_sink :
+  forall CH CB TG ks tagc fuel s k buf s' n,
+  EncLayer.ew_write CH CB ks tagc s buf = Ok (s', n) ->
+  sk_data k = EncLayer.ew_out s -> good_sched (sk_sched k) ->
+  (N.to_nat (len (EncLayer.ew_out s')) + length (sk_sched k) < fuel)%nat ->
+  exists k', RunWRows.es_write CH CB TG ks tagc fuel (s, k) buf = Ok (s', k', n) /\
+             sk_data k' = EncLayer.ew_out s' /\ good_sched (sk_sched k').
+Proof. exact RunWRowsProofs.es_write_sink_holds_ew_out. Qed.
+
+Theorem C13_enc_finalize_over_sink :
+  forall TG tagc fuel s k s',
+  EncLayer.ew_finalize tagc s = Ok s' ->
+  sk_data k = EncLayer.ew_out s -> good_sched (sk_sched k) ->
+  (N.to_nat (len (EncLayer.ew_out s')) + length (sk_sched k) < fuel)%nat ->
+  exists k', RunWRows.es_finalize TG tagc fuel (s, k) = Ok (s', k') /\
+             sk_data k' = EncLayer.ew_out s' /\ good_sched (sk_sched k').
+Proof. exact RunWRowsProofs.es_finalize_sink_holds_ew_out. Qed.
+
+(* non-vacuity (toy cipher, CHUNK 64, CIPHERBUF 24): a 30-byte write into a sink that accepts one
+   byte, interrupts, accepts three bytes, then everything: 24 bytes accepted, 24 bytes in the sink *)
+Example C13_enc_writer_over_sink_example :
+  exists s' k',
+    EncLayer.ew_write 64 24 toy_ks (toy_tag 16) EncLayer.ew_init (repeat 5 30) = Ok (s', 24) /\
+    RunWRows.es_write 64 24 16 toy_ks (toy_tag 16) 100 (EncLayer.ew_init, mkSink [] [Accept 1; Interrupt; Accept 3]) (repeat 5 30)
+      = Ok (s', k', 24) /\
+    sk_data k' = EncLayer.ew_out s' /\ len (sk_data k') = 24 /\ sk_sched k' = [].
+Proof. eexists. eexists. repeat split; vm_compute; reflexivity. Qed.
+
+Print Assumptions C13_enc_writer_over_sink.
+Print Assumptions C13_enc_finalize_over_sink.
+Print Assumptions C13_enc_writer_over_sink_example.
